@@ -378,8 +378,8 @@ class P:
 
     def skip_gep_flags(self):
         while self.peek()[1] in ('inbounds', 'nuw', 'nusw', 'inrange'):
-            self.next()
-            if self.peek()[1] == '(':
+            w = self.next()[1]
+            if w == 'inrange' and self.peek()[1] == '(':
                 while self.next()[1] != ')':
                     pass
 
@@ -1060,6 +1060,10 @@ class DeadPath(Exception):
 
 
 _FEAS = {}
+# Back edges are followed while their guard is not *syntactically* false (loop counters of the model
+# containers are concrete or constant-leaf ite trees, so loops end without solver calls); the residual
+# guard after `unwind` iterations is the unwinding assertion. Solver-based pruning is optional.
+PRUNE_BACKEDGES = bool(os.environ.get('LLSYM_PRUNE'))
 FEAS_STATS = {'calls': 0, 'time': 0.0}
 
 
@@ -1071,6 +1075,9 @@ def feasible(g):
     r = _FEAS.get(g.id)
     if r is None:
         t = time.time()
+        if os.environ.get('LLSYM_DEBUG'):
+            import traceback
+            sys.stderr.write('feasible() call from %s\n' % ' < '.join(f.name for f in traceback.extract_stack()[-5:-1]))
         s = z3.SolverFor('QF_BV')
         s.add(sx.guard_z3(g))
         r = s.check() != z3.unsat
@@ -1164,6 +1171,7 @@ class Result:
         self.rets = []  # (guard, value)
         self.panics = []  # (guard, msg)
         self.bounds = []  # (guard, msg): model capacity / precision bound exceeded
+        self.ub = []  # guards of dropped undefined-behaviour alternatives (must be unreachable)
         self.funcs = set()
         self.unwind = []  # guards
         self.stats = {'instrs': 0, 'calls': 0, 'blocks': 0, 'merges': 0}
@@ -1341,46 +1349,78 @@ class Exec:
 
     # ---- pointer resolution: list of (guard, oid, offset(int or z3 32-bit-ish expr))
     def resolve(self, st, p, nbytes, align):
+        """targets of a dereference: [(guard, oid, concrete offset)]. Alternatives that would be undefined
+        behaviour (null / out of bounds) are dropped from the path, and their guards are recorded in
+        res.ub: the final query 'invalid-deref' must show them unreachable, else the run is inconclusive."""
         if not isinstance(p, Ptr):
-            raise MemError('deref of non-object pointer %s' % (p if is_c(p) else 'symbolic-int'))
+            if is_c(p):
+                self.res.ub.append(st.g)
+                raise DeadPath()
+            raise MemError('deref of non-object pointer (symbolic integer)')
         out = []
+        dropped = False
         for g, oid, off in p.alts:
             if oid == 0:
-                continue  # null/int alternative: UB, skip
+                dropped = g_or(dropped, g)  # null/int alternative
+                continue
             obj = st.mem.objs.get(oid)
             if obj is None:
                 raise MemError('dangling object %d' % oid)
             if is_c(off):
-                out.append((g, oid, off))
-                continue
-            off = simp(off)
-            if is_c(off):
-                out.append((g, oid, off))
+                if off + nbytes > obj.size:
+                    dropped = g_or(dropped, g)
+                else:
+                    out.append((g, oid, off))
                 continue
             ev = enum_values(off)
+            if ev is None:
+                off2 = sx.expand_small(off, 64)
+                if off2 is not None:
+                    self.res.stats['expand_small'] = self.res.stats.get('expand_small', 0) + 1
+                    ev = enum_values(off2)
             if ev is not None:
                 byoff = {}
                 for gg, o in ev:
                     if o + nbytes > obj.size:
-                        continue  # out of bounds alternative: infeasible in safe code
+                        dropped = g_or(dropped, g_and(g, gg))
+                        continue
                     byoff[o] = g_or(byoff.get(o, False), gg)
                 for o, gg in byoff.items():
                     gg = g_and(g, gg)
-                    if len(byoff) > 1:
-                        gg = g_simpl(gg)
                     if gg is not False:
                         out.append((gg, oid, o))
                 continue
-            self.res.stats['enum_fallback'] = self.res.stats.get('enum_fallback', 0) + 1
-            for o in range(0, obj.size - nbytes + 1, max(1, align)):
+            vs = sx.valset(off)
+            if vs is not None:
+                self.res.stats['valset'] = self.res.stats.get('valset', 0) + 1
+                cands = sorted(vs)
+            else:
+                self.res.stats['enum_fallback'] = self.res.stats.get('enum_fallback', 0) + 1
+                if os.environ.get('LLSYM_DEBUG_ENUM'):
+                    def show(e, d=0):
+                        if is_c(e): return str(e)
+                        if d > 3: return e.op
+                        return '%s(%s)' % (e.op, ','.join(show(a_, d + 1) for a_ in e.args))
+                    sys.stderr.write('ENUM_FALLBACK obj=%s size=%d nbytes=%d off=%s\n   at %s\n' % (obj.name, obj.size, nbytes, show(off)[:300], getattr(self, 'cur_line', '?')))
+                cands = list(range(0, obj.size - nbytes + 1, max(1, align)))
+            anyg = False
+            for o in cands:
                 gg = g_and(g, _gn(sx.cmp_('eq', off, o, 64)))
                 if gg is False:
                     continue
+                anyg = g_or(anyg, gg)
+                if o + nbytes > obj.size:
+                    continue  # stays in `dropped` below
                 out.append((gg, oid, o))
-        if not out and not feasible(st.g):
-            raise DeadPath()
+            inb = False
+            for gg, oo, o in out:
+                if oo == oid:
+                    inb = g_or(inb, gg)
+            dropped = g_or(dropped, g_and(g, g_not(inb)))
+        if dropped is not False:
+            self.res.ub.append(g_and(st.g, dropped))
         if not out:
-            raise MemError('pointer with no valid target: %r nbytes=%d objs=%s' % (p, nbytes, [(o, st.mem.objs[o].size, st.mem.objs[o].name, (off if is_c(off) else (off.op, off.cl, [a if is_c(a) else a.op for a in off.args]))) for g, o, off in p.alts if o]))
+            raise DeadPath()
         if len(out) == 1:
             return [(True, out[0][1], out[0][2])]
         return out
@@ -1660,8 +1700,12 @@ class Exec:
                         raise Unsupported('loop exit leaves function')
                     outer_exits.setdefault(tgt, []).extend(sts)
             back = [s for s in back if s.g is not False]
-            if back and it >= 1:
+            if back and it >= 1 and PRUNE_BACKEDGES:
+                if os.environ.get('LLSYM_DEBUG'):
+                    t_ = time.time()
                 back = [s for s in back if feasible(s.g)]
+                if os.environ.get('LLSYM_DEBUG'):
+                    sys.stderr.write('feas loop %s %s it=%d -> %d (%.2fs)\n' % (demangle(f.name)[-60:], header, it, len(back), time.time() - t_))
             if not back:
                 return
             cur = back
@@ -1705,6 +1749,7 @@ class Exec:
             if op == 'phi':
                 continue
             try:
+                self.cur_line = ins.line[:200] + ' @@ ' + demangle(f.name)[-80:]
                 r = self.step(f, st, ins)
             except DeadPath:
                 self.res.stats['deadpaths'] = self.res.stats.get('deadpaths', 0) + 1
@@ -2011,12 +2056,15 @@ class Exec:
 
 
 # ----------------------------------------------------------------------------- driver
-def run_entry(mod, fname, nbytes, unwind=8, concrete=None):
+def run_entry(mod, fname, nbytes, unwind=8, concrete=None, fixed=None):
+    """fixed: {byte index: value} input bytes held concrete (case split); the rest are symbolic"""
     ex = Exec(mod, unwind=unwind)
     f = mod.funcs[fname]
     mem = ex.gmem.fork()
     if concrete is None:
         inp = [sx.var('in_%d' % i, 8) for i in range(nbytes)]
+        for k, v in (fixed or {}).items():
+            inp[int(k)] = int(v)
     else:
         inp = list(concrete) + [0] * (nbytes - len(concrete))
     oid = ex.new_obj(mem, nbytes, 'input')
@@ -2078,14 +2126,17 @@ def run_concrete(path, fname, data, nbytes, unwind=64):
     return 'none'
 
 
-def analyze(path, fname, nbytes=96, unwind=8, timeout_s=600, covers=(), extra_queries=None, smt_dump=None):
+def analyze(path, fname, nbytes=96, unwind=8, timeout_s=600, covers=(), extra_queries=None, smt_dump=None, fixed=None,
+            out_of_range=None):
     """symbolically execute `fname` and discharge the standard queries.
     Returns dict: queries=[{name, verdict, solve_s, model(hex)?}], stats, functions."""
     t0 = time.time()
     mod = load_module(path)
     t1 = time.time()
-    ex, inp, rets = run_entry(mod, '@' + fname, nbytes, unwind=unwind)
+    ex, inp, rets = run_entry(mod, '@' + fname, nbytes, unwind=unwind, fixed=fixed)
     t2 = time.time()
+    if os.environ.get('LLSYM_DEBUG'):
+        sys.stderr.write('symex done %.2fs stats %s nodes %d feas %s\n' % (t2 - t1, ex.res.stats, sx._CNT[0], FEAS_STATS))
     retv = None
     retg = False
     for g, v, _ in rets:
@@ -2128,9 +2179,13 @@ def analyze(path, fname, nbytes=96, unwind=8, timeout_s=600, covers=(), extra_qu
                 f.write('(set-logic QF_BV)\n' + s.to_smt2())
         r = s.check()
         q['solve_s'] = round(time.time() - t, 3)
+        if os.environ.get('LLSYM_DEBUG'):
+            sys.stderr.write('query %s -> %s %.2fs\n' % (name, r, q['solve_s']))
         if r == z3.sat:
             m = s.model()
             vals = [m.eval(b, model_completion=True).as_long() for b in zin]
+            for k, v in (fixed or {}).items():
+                vals[int(k)] = int(v)
             q.update(verdict='sat', model=bytes(vals).hex())
         elif r == z3.unsat:
             q['verdict'] = 'unsat'
@@ -2142,6 +2197,10 @@ def analyze(path, fname, nbytes=96, unwind=8, timeout_s=600, covers=(), extra_qu
     check('panic', panic, 'unsat')
     check('bound-exceeded', bound, 'unsat')
     check('unwind-exceeded', unw, 'unsat')
+    ubg = False
+    for g in ex.res.ub:
+        ubg = g_or(ubg, g)
+    check('invalid-deref', ubg, 'unsat')
     check('witness', retis(1), 'sat')
     for c in covers:
         check('cover=%d' % c, retis(c), 'sat')
